@@ -33,7 +33,7 @@ mod verif_kani_layout {
         assert!(size_of::<Page>() == 40);
         assert!(align_of::<Page>() == 8);
         assert!(p.id == le64(&buf.0, 0));
-        assert!(p.page_type == buf.0[8]);
+        assert!(p.page_type as u64 == buf.0[8] as u64);
         assert!(p.count == le64(&buf.0, 16));
         assert!(p.overflow == le64(&buf.0, 24));
         assert!(p.ptr == le64(&buf.0, 32));
@@ -100,7 +100,7 @@ mod verif_kani_layout {
             let p = Page::from_buf(&buf.0, 0, 128);
             let l = &p.leaf_elements()[0];
             assert!((l as *const LeafElement as usize) - (p as *const Page as usize) == 32);
-            assert!(l.node_type == buf.0[32]);
+            assert!(l.node_type as u64 == buf.0[32] as u64);      // (casts: a widened tag type must fail this assertion, not the compilation)
             assert!(l.pos == le64(&buf.0, 40));
             assert!(l.key_size == le64(&buf.0, 48));
             assert!(l.value_size == le64(&buf.0, 56));
